@@ -142,9 +142,19 @@ class _Interp:
                     return v
                 return None
             if d == 'format' and len(e.args) == 2 and \
-                    isinstance(e.args[1], ast.Constant):
+                    isinstance(e.args[1], (ast.Constant, ast.JoinedStr)):
                 v = self.ev(e.args[0])
-                ok = _prec_ok(str(e.args[1].value), self.need)
+                sp = e.args[1]
+                if isinstance(sp, ast.JoinedStr):
+                    # a spec with constant fields nested in it
+                    sp_txt = self.spec_of(ast.FormattedValue(
+                        value=ast.Constant(value=0), conversion=-1,
+                        format_spec=sp))
+                else:
+                    sp_txt = str(sp.value)
+                if sp_txt is None:
+                    return None
+                ok = _prec_ok(sp_txt, self.need)
                 if v and v[0] == 'num' and ok is not None:
                     return ('text', ok and v[1])
                 return None
